@@ -61,6 +61,25 @@ def run(tier):
   k = 100 if tier == 'quick' else 1500
   cc.replay_behaviours(rep, 'GinCore_Sim_lockedcalls', num=k, depth=9, nontrivial=_nontrivial, generate=k * 8, beh_keys=_history_keys, seed_off=41)
   cc.trace_validate(rep, 50 if tier == 'quick' else 600, seed_off=101)
+  # the model's prediction "the registry's version injects" (GinRegister: Predict.registryInjects) over the shape universe
+  # of the registration adapter: every callable / class shape (construction through __init__, __new__, both, inherited,
+  # metaclass, slots, namedtuple, decorated, closed __new__ over a catch-all mixin ...) receives its binding through a
+  # reference, a selector and the original object, scoped and unscoped
+  from ginverif import adapter_register as R
+  for shape in sorted(R.SHAPES):
+    for api in ('external', 'register'):
+      for scoped in (False, True):
+        rep.evaluations += 1
+        rep.nontrivial_case('shape-injection/%s/%s/%s' % (shape, api, scoped))
+        try:
+          fails = R.transparency_case(shape, api, scoped, dict(returnsOriginal=False, originalUntouched=False, exactlyOriginalType=False,
+                                                               picklesIfOriginal=False))
+        except Exception as e:  # pylint: disable=broad-except
+          fails = [('registryInjects', 'case raised %s: %s' % (type(e).__name__, e))]
+        for clause, detail in fails:
+          if clause == 'registryInjects':
+            rep.violation(dict(kind='shape-injection', shape=shape, api=api, scoped=scoped),
+                          dict(kind='shape-injection', shape=shape, api=api, scoped=scoped, detail=detail))
   return rep.finish()
 
 
